@@ -25,7 +25,7 @@ func init() {
 func runC12(c *Ctx) {
 	R := c.R
 	R.Require("C12.nalu", 4)
-	R.Require("C12.record", 18)
+	R.Require("C12.record", 23)
 	R.Require("C12.sample", 24)
 
 	// ---- C12.nalu
@@ -83,8 +83,18 @@ func runC12(c *Ctx) {
 	// ---- C12.record
 	lr := newLayout(c, "C12.record")
 	var recEnc, recDec []Variant
-	for nsps := 0; nsps <= 2; nsps++ {
-		for npps := 0; npps <= 2; npps++ {
+	counts := [][2]int{{31, 0}, {0, 33}} // boundary counts: the 5-bit SPS maximum and a PPS count that needs more than 5 bits
+	if c.Tier == "thorough" {
+		counts = append(counts, [2]int{0, 255})
+	}
+	for a := 0; a <= 2; a++ {
+		for b := 0; b <= 2; b++ {
+			counts = append(counts, [2]int{a, b})
+		}
+	}
+	for _, cnt := range counts {
+		{
+			nsps, npps := cnt[0], cnt[1]
 			// encoder: atoms are named after the receiver's access paths
 			dom := map[string]Dom{"v.configurationVersion": {W: 8, Hi: -1}, "v.AVCProfileIndication": {W: 8, Hi: -1}, "v.profileCompatibility": {W: 8, Hi: -1},
 				"v.AVCLevelIndication": {W: 8, Hi: -1}, "v.LengthSizeMinusOne": {W: 2, Hi: -1},
@@ -96,6 +106,9 @@ func runC12(c *Ctx) {
 					el := fmt.Sprintf("v.%s[%d].", field, i)
 					hdom(el+"NALUHeader.", dom)
 					dom["len("+el+"Data)"] = Dom{W: 16, Hi: 65534}
+					if n > 2 {
+						dom["len("+el+"Data)"] = Dom{W: 16, Lo: 1, Hi: 65534} // boundary-count variants: non-empty payloads only (keeps the path count linear)
+					}
 					spec = abs.Cat(spec, abs.BE("len("+el+"Data)+1", 2), hdr(el+"NALUHeader."), abs.BlobSpec(el+"Data", abs.LAtom("len("+el+"Data)")))
 				}
 			}
@@ -130,6 +143,20 @@ func runC12(c *Ctx) {
 			fields["len:SequenceParameterSetNALUnits"] = Want{Const: cst(int64(nsps))}
 			fields["len:PictureParameterSetNALUnits"] = Want{Const: cst(int64(npps))}
 			recDec = append(recDec, Variant{Name: fmt.Sprintf("sps=%d,pps=%d", nsps, npps), Dom: ddom, Spec: dspec, Fields: fields})
+		}
+	}
+	// records of the High profiles carry extension fields after the PPS (ISO 14496-15 5.2.4.1.1): a reader must tolerate them
+	for _, v := range recDec {
+		if v.Name == "sps=1,pps=1" {
+			ext := v
+			ext.Name = "sps=1,pps=1,trailing-extension"
+			ext.Dom = map[string]Dom{}
+			for k, d := range v.Dom {
+				ext.Dom[k] = d
+			}
+			ext.Dom["len(ext)"] = Dom{W: 16, Hi: -1}
+			ext.Spec = abs.Cat(v.Spec, abs.BlobSpec("ext", abs.LAtom("len(ext)")))
+			recDec = append(recDec, ext)
 		}
 	}
 	lr.encoder("avc", "(*AVCDecoderConfigurationRecord).MarshalBinary", recEnc, retBytes(0, 1))
